@@ -33,6 +33,60 @@ ShapeQuick == { Shape("fn", 2, 1, TRUE, FALSE, FALSE, FALSE), Shape("cls", 2, 1,
 
 OneShapeRegs == { {c} : c \in Shapes }
 QuickRegs == { {c} : c \in ShapeQuick }
+------------------------------------------------------------------------------
+(* C10: REQUIRED in signatures *)
+ReqShape(tag, kind, pos, npd, kwo, kwd, va, vk, dflt) ==
+  [ Base EXCEPT !.sel = <<"m", tag>>, !.kind = kind, !.pos = pos, !.npd = npd, !.kwo = kwo, !.kwd = kwd,
+                !.va = va, !.vk = vk, !.dflt = dflt ]
+ReqShapes == {
+  ReqShape("r1", "fn",  <<"p","q">>, 0, <<>>, {}, FALSE, FALSE, {}),
+  ReqShape("r2", "fn",  <<"p","q">>, 1, <<"k">>, {"k"}, FALSE, FALSE, {<<"q", Req>>, <<"k", Req>>}),
+  ReqShape("r3", "cls", <<"p","q">>, 2, <<>>, {}, TRUE, TRUE, {<<"p", D("p")>>, <<"q", Req>>}),
+  ReqShape("r4", "fn",  <<"p">>, 0, <<"k">>, {}, TRUE, TRUE, {}),
+  ReqShape("r5", "cls", <<"p","q">>, 1, <<"k">>, {"k"}, FALSE, TRUE, {<<"q", D("q")>>, <<"k", Req>>}) }
+ReqRegs == { {c} : c \in ReqShapes }
+ReqRegsQuick == { {c} : c \in { x \in ReqShapes : x.sel[2] \in {"r2", "r3"} } }
+
+(* C11: allow / deny lists *)
+ListShape(tag, kind, vk, allow, deny) ==
+  [ Base EXCEPT !.sel = <<"m", tag>>, !.kind = kind, !.pos = <<"p","q">>, !.npd = 2, !.kwo = <<"k">>, !.kwd = {"k"},
+                !.vk = vk, !.allow = allow, !.deny = deny,
+                !.dflt = {<<"p", D("p")>>, <<"q", D("q")>>, <<"k", D("k")>>} ]
+ListShapes == {
+  ListShape("a0", "fn",  FALSE, {"*"}, {}),
+  ListShape("a1", "fn",  FALSE, {"p","k"}, {}),
+  ListShape("a2", "cls", FALSE, {"*"}, {"q"}),
+  ListShape("a3", "fn",  TRUE,  {"*"}, {"k"}),
+  ListShape("a4", "cls", TRUE,  {"q"}, {}),
+  ListShape("a5", "fn",  TRUE,  {"p","z"}, {}) }
+ListRegs == { {c} : c \in ListShapes }
+ListRegs2 == { {a, b} : a \in ListShapes, b \in { x \in ListShapes : x.sel[2] \in {"a1", "a2"} } }
+AllApis == {"tuple", "string", "text", "block"}
+
+(* C12: hooks.  f is reachable as "f" and "m.f"; g as "g" *)
+LockF == [ Base EXCEPT !.sel = <<"m","f">>, !.pos = <<"p","q">>, !.npd = 2, !.dflt = {<<"p", D("p")>>, <<"q", D("q")>>},
+                        !.deny = {"q"} ]
+LockG == [ Base EXCEPT !.sel = <<"n","g">>, !.kind = "cls", !.pos = <<"p">>, !.npd = 1, !.dflt = {<<"p", D("p")>>} ]
+LockH == [ Base EXCEPT !.sel = <<"n","h">>, !.pos = <<"p">>, !.npd = 1, !.dflt = {<<"p", D("p")>>}, !.api = "external" ]
+HookKey(scope, sp, p, v) == [scope |-> scope, spelling |-> sp, param |-> p, val |-> v]
+Hooks == {
+  [id |-> "h1", rets |-> {HookKey(<<>>, <<"f">>, "p", L1)}, raises |-> FALSE],
+  [id |-> "h2", rets |-> {HookKey(<<>>, <<"m","f">>, "p", L2)}, raises |-> FALSE],       \* same parameter, other spelling
+  [id |-> "h3", rets |-> {HookKey(<<"a">>, <<"f">>, "p", L2), HookKey(<<>>, <<"g">>, "p", L1)}, raises |-> FALSE],
+  [id |-> "h4", rets |-> {}, raises |-> TRUE],
+  [id |-> "h5", rets |-> {HookKey(<<>>, <<"f">>, "q", L1)}, raises |-> FALSE],             \* denylisted
+  [id |-> "h6", rets |-> {HookKey(<<>>, <<"nope">>, "p", L1)}, raises |-> FALSE],          \* unknown configurable
+  [id |-> "h7", rets |-> {}, raises |-> FALSE] }                                            \* returns None
+LockRegs == { {LockF, LockG} }
+
+ScopeF == [ Base EXCEPT !.sel = <<"m","f">>, !.pos = <<"p">>, !.npd = 1, !.dflt = {<<"p", D("p")>>} ]
+ScopeConfs == {ScopeF}
+ScopeRegs == {{ScopeF}}
+LockConfs == {LockF, LockG, LockH}
+LockFresh == {LockH}
+HooksBound == Len(hooks) <= 2
+BV1 == {L1}
+NamesPQ == <<"p", "q">>
 BV12 == {L1, L2}
 Names6 == <<"k", "p", "q", "self", "value", "z">>
 =============================================================================
